@@ -436,7 +436,7 @@ fn palette_cases(max_len: usize) -> Vec<Case> {
 
 /// Lists around the 64-member boundary (the solver counts hits in a bitmap below it and in a hash
 /// set from it on), all in one automaton batch, against documents holding chosen subsets.
-fn big_list_cases(tier: &str) -> Vec<Case> {
+pub fn big_list_cases(tier: &str) -> Vec<Case> {
     let lens: &[usize] = if tier == "thorough" { &[62, 63, 64, 65, 66, 80, 130] } else { &[63, 64, 65, 70] };
     let mut out = vec![];
     for &len in lens {
